@@ -18,22 +18,23 @@ LEVEL_TEXT = ('Lean 4 theorems (Mathlib matrices), for every basis matrix B with
               'normalisation and caller coordinates on which the modes are linearly independent: fit(compose c) = c; fit(remove opd) = 0; '
               'remove is idempotent; remove(compose c) = 0; the residual is orthogonal to the removed modes and no other coefficient vector '
               'leaves a smaller sum of squares; permuting the requested modes permutes the coefficients. The executable model (basis from the '
-              'C11 mode model, Cramer solution of the normal equations, compose, remove) is proved equal to these abstract objects, a '
+              'C11 mode model, Cramer solution of the normal equations, compose, remove — wired through the REGENERATED call-site argument projections) is proved equal to these abstract objects; IsUnit det(BtB) is proved equivalent to linear independence of the sampled modes over ordered fields; remove leaves samples outside the mask untouched; a '
               'coefficient vector for zernike_compose with the coefficients at the (regenerated) positions of the requested modes composes '
-              'B·c, and a concrete Zernike basis over Q satisfies the independence hypothesis. PARTIAL: that np.linalg.pinv(basis)·opd is the '
+              'B·c, and two concrete Zernike bases over Q (one ray; a 2x2 array with cosine, sine and radial modes) satisfy the independence hypothesis. PARTIAL: that np.linalg.pinv(basis)·opd is the '
               'normal-equation solution, and that the code builds exactly this basis, are checked by correspondence only.')
 LEVEL_NOTE = ('Trusted: Lean kernel and Mathlib; np.linalg.pinv(basis) = (BᵀB)⁻¹Bᵀ for full column rank and np.einsum contractions (compared on '
               'every call with the Lean model run at Float, tolerance 1e-9 x conditioning); float rounding; generator coverage (histories of '
               '6-9 calls, layouts, dtypes).')
 TECHNIQUE = 'Lean 4 proof over Mathlib matrices + executable Lean model of basis/fit/compose/remove with differential correspondence on call histories'
-GEN = ['ZernikeCalls']
+GEN = ['ZernikeCalls', 'ZernikeR']
 OPS = ['C11', 'C12']
 RULE = ('cases = call histories of 6-9 compose/fit/remove calls in one process on one mask (circular / hexagonal / segmented / off-centre / '
         'irregular weighted, sizes 9..22 even and odd): same modes with default then caller-supplied (shifted, rotated) coordinates, both '
         'normalisations, reversed/permuted mode orders, repeated calls; non-empty mode subsets of Noll 1..36 of size 1..6 in random order (never '
         'exactly 1..k), given as list, ndarray or scalar; OPDs with and without content outside the mask; inputs C-ordered, Fortran-ordered, '
-        'transposed views, strided views, float32 OPDs, bool/int/float32 masks; histories whose basis is ill-conditioned (cond > 1e4) are '
-        'tagged and not judged; distinct = (mask kind, shape, step list) signature')
+        'transposed views, strided views, float32 OPDs, bool/int/float32 masks; zernike_basis observed directly (cube and vectorised); medium-conditioned '
+        'histories (cond 1e2..1e4, with residual) compared with the model; ill-conditioned full-rank histories (cond up to 1e9, zero residual) judged by the '
+        'oracle only; distinct = (mask kind, shape, step list) signature')
 TRUSTED = ['np.linalg.pinv returns (BᵀB)⁻¹Bᵀ for a full-column-rank B (compared numerically with the Lean normal-equation solution on every call, not proved)',
            'np.einsum contractions as matrix-vector products; ndarray.ravel() / reshape(k, -1) enumerate samples in C order']
 UNPROVEN = ['zernike_fit returns the normal-equation (least-squares) solution: rests on the pinv contract — correspondence only',
@@ -104,8 +105,32 @@ def _ill_case(rng, N, r, nm, few=False):
     return {'kind': 'illcond', 'shape': [N, N], 'mask': [float(x) for x in seg.ravel()], 'mask_dtype': 'float64', 'steps': steps, 'cond': cond,
             'oracle_only': True}
 
+def _medium_case(rng):
+    """moderately ill-conditioned (cond 1e2..1e4), WITH residual, k <= 6: compared with the Lean model"""
+    vlib.import_lentil()
+    import lentil, sys
+    Z = sys.modules['lentil.zernike']
+    N = int(rng.integers(32, 49)); R = N // 2 - 1; r = int(rng.integers(3, 5))
+    sh = (int(rng.integers(N // 5, N // 3)) * (1 if rng.integers(0, 2) else -1), int(rng.integers(N // 6, N // 4)))
+    seg = np.asarray(lentil.circle((N, N), r, shift=sh, antialias=False), dtype=float)
+    G = {'pupil_radius': R}
+    nm = int(rng.integers(5, 7))
+    modes = [int(x) for x in rng.permutation(np.arange(1, nm + 1))]          # the low orders look alike on a small patch: cond 1e2..1e3
+    if rng.integers(0, 2): modes[int(rng.integers(0, nm))] = int(rng.integers(nm + 1, 16))
+    rho, theta = Z.zernike_coordinates(lentil.circle((N, N), R, antialias=False))
+    cond = max(float(np.linalg.cond(lentil.zernike_basis(seg, modes, vectorize=True, normalize=n_, rho=rho, theta=theta).T)) for n_ in (True, False))
+    L = {'opd': 'C', 'mask': 'C', 'coords': 'C'}
+    def opd(): return [int(x) / 16 for x in rng.integers(-64, 65, seg.size)]
+    steps = [{'t': 'fit', 'modes': modes, 'normalize': True, 'coords': G, 'opd': opd(), 'layout': dict(L)},
+             {'t': 'rm', 'modes': modes, 'coords': G, 'opd': opd(), 'layout': dict(L, opd='F')},
+             {'t': 'basis', 'modes': modes, 'normalize': False, 'coords': G, 'vectorize': True, 'layout': dict(L)},
+             {'t': 'rt', 'modes': modes[::-1], 'normalize': False, 'coords': G, 'coeffs': [int(x) / 8 for x in rng.integers(-40, 41, nm)], 'layout': dict(L)}]
+    for s_ in steps: s_['modes_form'] = 'list'; s_['mask_outside'] = bool(rng.integers(0, 2))
+    return {'kind': 'medium-cond', 'shape': [N, N], 'mask': [float(x) for x in seg.ravel()], 'mask_dtype': 'float64', 'steps': steps, 'cond': cond}
+
 def generate(rng, tier):
     out = _generate(rng, tier)
+    out = [_medium_case(rng) for _ in range({'quick': 4, 'thorough': 60, 'search': 12}[tier])] + out
     # extremes: ill-conditioned full-rank mode sets (a small sample in the quick tier, the large ones only in the deeper tiers)
     ill = {'quick': [(48, 6, 22), (40, 5, 18)], 'thorough': [(48, 6, 22), (64, 8, 22), (96, 10, 22), (40, 5, 16), (56, 6, 21)],
            'search': [(48, 6, 22), (64, 8, 22), (96, 10, 22), (40, 5, 18)]}[tier]
@@ -145,6 +170,8 @@ def _generate(rng, tier):
             {'t': 'rt', 'modes': modes, 'normalize': nrm, 'coords': A, 'coeffs': coeffs(nm), 'layout': lay()},
             {'t': 'fit', 'modes': modes, 'normalize': nrm, 'coords': A, 'opd': o1, 'layout': lay()},        # repetition of the first call
         ]
+        steps.insert(int(rng.integers(0, len(steps))), {'t': 'basis', 'modes': perm, 'normalize': bool(rng.integers(0, 2)), 'coords': B if k % 2 else A,
+                                                        'vectorize': bool(rng.integers(0, 2)), 'layout': lay()})
         if rng.integers(0, 3) == 0: steps = [steps[i] for i in rng.permutation(len(steps))[:int(rng.integers(6, 10))]]
         for s in steps:
             s['modes_form'] = 'scalar' if len(s['modes']) == 1 and rng.integers(0, 2) else ('ndarray' if rng.integers(0, 3) == 0 else 'list')
@@ -217,7 +244,10 @@ def impl(c):
                 if not s['mask_outside']: opd = opd * (mask64 != 0)
                 o['opd_in'] = _fl(opd)
                 opd = _layout(opd, L['opd'])
-            if s['t'] == 'fit':
+            if s['t'] == 'basis':
+                bz = lentil.zernike_basis(mask, modes, vectorize=s['vectorize'], normalize=s['normalize'], **kw)
+                o['basis_shape'] = list(np.shape(bz)); o['basis'] = _fl(bz)
+            elif s['t'] == 'fit':
                 o['fit'] = _fl(lentil.zernike_fit(opd, mask, modes, normalize=s['normalize'], **kw))
                 rv = ml[::-1]
                 fp = lentil.zernike_fit(opd, mask, rv if len(ml) > 1 else modes, normalize=s['normalize'], **kw)
@@ -227,7 +257,7 @@ def impl(c):
                 o['rem'] = _fl(rem); o['rem_shape'] = list(np.shape(rem))
                 o['fit_rem'] = _fl(lentil.zernike_fit(rem, mask, modes, normalize=True, **kw))
                 o['rem2_diff'] = float(np.abs(np.asarray(lentil.zernike_remove(rem, mask, modes, **kw)) - rem).max())
-            else:
+            elif s['t'] in ('rt', 'span'):
                 nrm = True if s['t'] == 'span' else s['normalize']
                 full = np.zeros(max(ml)); full[np.array(ml) - 1] = np.array(s['coeffs'])
                 o['full'] = _fl(full)
@@ -247,7 +277,9 @@ def requests(c, io):
     reqs = []
     for s, o in zip(c['steps'], io['steps']):
         base = {'rho': vlib.fl(o['rho']), 'theta': vlib.fl(o['theta']), 'mask': mk, 'modes': s['modes']}
-        if s['t'] == 'fit':
+        if s['t'] == 'basis':
+            reqs.append(dict(base, op='zbasis', normalize=s['normalize']))
+        elif s['t'] == 'fit':
             reqs.append(dict(base, op='zfit', normalize=s['normalize'], opd=vlib.fl(o['opd_in'])))
         elif s['t'] == 'rm':
             reqs.append(dict(base, op='zremove', opd=vlib.fl(o['opd_in'])))
@@ -260,7 +292,7 @@ def requests(c, io):
 
 def _judged(c): return c['cond'] <= 1e4
 
-def _ctol(c): return TOL * max(1.0, c['cond'] ** 2) * 10
+def _ctol(c): return max(1e-10, 1e-11 * c['cond'] ** 2)      # the model solves the normal equations by Cramer/Laplace at Float: error ~ cond^2 x epsilon x k!
 
 def _where(c, i, s):
     return (f"call {i + 1}/{len(c['steps'])} ({s['t']}, modes {s['modes']} as {s['modes_form']}, "
@@ -272,20 +304,30 @@ def compare(c, io, mo):
         if not m.get('ok'): return f"model refused: {m.get('err')}"
     k = 0
     for i, (s, o) in enumerate(zip(c['steps'], io['steps'])):
-        if s['t'] == 'fit':
+        if s['t'] == 'basis':
+            want = np.array([vlib.unfl(row) for row in mo[k]['basis']]); k += 1          # (modes, samples)
+            km = len(s['modes'])
+            wshape = [km, want.shape[1]] if s['vectorize'] else [km] + c['shape']
+            if o['basis_shape'] != wshape: return f"{_where(c, i, s)}: zernike_basis(vectorize={s['vectorize']}) returned shape {o['basis_shape']}, expected {wshape}"
+            got = np.array(o['basis']).reshape(km, -1)
+            sc = max(1.0, np.abs(want).max())
+            if np.abs(got - want).max() > TOL * sc * 10:
+                a_, b_ = np.unravel_index(np.abs(got - want).argmax(), got.shape)
+                return f"{_where(c, i, s)}: zernike_basis plane {a_} (mode {s['modes'][a_]}) sample {b_}: impl {got[a_, b_]} model {want[a_, b_]}"
+        elif s['t'] == 'fit':
             want = np.array(vlib.unfl(mo[k]['fit'])); k += 1
             if _judged(c):
-                sc = max(1.0, np.abs(o['opd_in']).max())
+                sc = max(1.0, np.abs(o['opd_in']).max(), np.abs(want).max())
                 if np.abs(np.array(o['fit']) - want).max() > _ctol(c) * sc:
                     return f"{_where(c, i, s)}: zernike_fit {o['fit']} differs from the model's normal-equation solution {list(want)}"
         elif s['t'] == 'rm':
             want = np.array(vlib.unfl(mo[k]['residual'])); k += 1
             if o['rem_shape'] != c['shape']: return f"{_where(c, i, s)}: zernike_remove returned shape {o['rem_shape']}"
             if _judged(c):
-                sc = max(1.0, np.abs(o['opd_in']).max())
+                sc = max(1.0, np.abs(o['opd_in']).max()) * len(s['modes'])
                 if np.abs(np.array(o['rem']) - want).max() > _ctol(c) * sc:
                     return f"{_where(c, i, s)}: zernike_remove differs from the model's opd - B·fit(opd) (max {np.abs(np.array(o['rem']) - want).max():.3e})"
-        else:
+        elif s['t'] in ('rt', 'span'):
             wc = np.array(vlib.unfl(mo[k]['opd'])); k += 1
             sc = max(1.0, np.abs(wc).max())
             if np.abs(np.array(o['opd_c']) - wc).max() > TOL * sc * 10:
@@ -311,6 +353,7 @@ def oracle(c, io):
     first = {}
     for i, (s, o) in enumerate(zip(c['steps'], io['steps'])):
         w = _where(c, i, s)
+        if s['t'] == 'basis': continue
         if s['t'] == 'rt':
             sc = max(1.0, np.abs(o['opd_c']).max())
             for m_, a, b in zip(s['modes'], o['fit'], s['coeffs']):
